@@ -38,6 +38,10 @@ func checkC14(c *Check) {
 	ruleSingleSinkWriter(c, p, "R14.5")
 	ruleDirectWrite(c, p, "R14.6")
 	ruleRawFlagPairing(c, p, "R14.7")
+	ruleBuffersRefetched(c, p, "R14.8", "Writer", "CompressingReader")
+	ruleContentHashDiscipline(c, p, "R14.9")
+	c.RuleDoc["R14.9"] = "content checksum fed in stream order only"
+	c.RuleDoc["R14.8"] = "the accumulation buffer (whose length is the block cut) is re-fetched from the current block size at frame start, so block boundaries do not depend on the object's history"
 }
 
 func ruleFastReset(c *Check, p *Program, rule string) {
@@ -782,6 +786,10 @@ func checkC18(c *Check) {
 		}
 		c.Cond(okInit && hdr, "R18.6", "CompressingReader.init#frame", p.Pos(in.Pos()), "the compressing reader builds a sequential, non-legacy frame and writes the header into its output adapter before any block", "InitW(out, 1, false); Descriptor.Write", fmt.Sprintf("InitW(…,1,false): %v; header written: %v", okInit, hdr))
 	}
+	c.RuleDoc["R18.7"] = "the output adapter is rewound before every error-free return that follows reset(p)"
+	c.RuleDoc["R18.8"] = "the input buffer is re-fetched from the current block size at frame start"
+	ruleAdapterRewound(c, p, "R18.7")
+	ruleBuffersRefetched(c, p, "R18.8", "CompressingReader")
 }
 
 // fieldValueSets tracks the possible constant values of a struct field through
